@@ -462,20 +462,27 @@ def gen_case(rng: random.Random) -> dict:
         b = rng.choice([[0.0, 0.0, 30.0], [10.0, -5.0, 20.0], [1.0, 0.0, 0.0], [3.0, 4.0, 0.0], [-2.0, 7.0, 1.5]])
         ops.append({"k": "field", "b": b})
     chans = []
+    ch_ops = []
     for k, cid in enumerate(chosen):
         name = f"c{k}"
         op = {"k": "channel", "name": name, "id": cid}
         if cid.endswith("local"):
             op["init"] = rng.choice(labels)     # (an untargeted local channel cannot be sampled at all)
-        ops.append(op)
+        ch_ops.append(op)
         chans.append((name, cid))
-    # --- detuning map / SLM
+    # --- detuning map / SLM: configured before, between or after the channel declarations (the order of
+    #     declaration is the order in which the sampler walks the channels)
     dmms = []
+    after_dmm = set()       # channels declared after a DMM exists
     has_dmm_dev = base != "AnalogDevice"
-    if mode in ("gr", "all") and has_dmm_dev and rng.random() < 0.4:
-        ws = [[q, rng.choice([1.0, 0.5, 0.25, 0.0, 0.8])] for q in labels if rng.random() < 0.8] or [[labels[0], 1.0]]
-        ops.append({"k": "detmap", "dmm_id": "dmm_0", "weights": ws})
+    if mode in ("gr", "all") and has_dmm_dev and rng.random() < 0.45:
+        ws = [[q, rng.choice([1.0, 0.5, 0.25, 0.0, 0.0, 0.8])] for q in labels if rng.random() < 0.8] \
+            or [[labels[0], 0.5]]
+        pos = rng.choice([0, 0, len(ch_ops), rng.randrange(0, len(ch_ops) + 1)])
+        ch_ops.insert(pos, {"k": "detmap", "dmm_id": "dmm_0", "weights": ws})
+        after_dmm |= {o["name"] for o in ch_ops[pos + 1:]}
         dmms.append("dmm_0")
+    ops += ch_ops
     slm_pending = None
     want_slm = has_dmm_dev and n >= 1 and (
         (mode == "xy" and rng.random() < 0.5) or (mode in ("gr", "all") and rng.random() < 0.2))
@@ -487,7 +494,14 @@ def gen_case(rng: random.Random) -> dict:
         slm = {"k": "slm", "q": rng.sample(labels, k)}
         if mode != "xy" and dmms:
             slm["dmm_id"] = "dmm_0" if reusable else "dmm_1"
-        if rng.random() < 0.6:
+        r = rng.random()
+        if mode != "xy" and r < 0.3:
+            # Ising SLM mask = a DMM: configure it before / between the channel declarations too
+            first_ch = next(i for i, o in enumerate(ops) if o["k"] in ("channel", "detmap"))
+            pos = rng.randrange(first_ch, len(ops) + 1)
+            after_dmm |= {o["name"] for o in ops[pos:] if o["k"] == "channel"}
+            ops.insert(pos, slm)
+        elif r < 0.65:
             ops.append(slm)
         else:
             slm_pending = slm
@@ -536,6 +550,14 @@ def gen_case(rng: random.Random) -> dict:
             if not any(o["k"] == "add" and o["ch"] == name for o in body) and rng.random() < 0.85:
                 body.append({"k": "add", "ch": name, "dur": rng.randrange(2, 9), "amp": ["const", rng.choice(AMPS[1:])],
                              "det": _det_spec(rng), "phase": rng.choice(PHASES), "protocol": "min-delay"})
+    # channels declared after a DMM must play a detuned pulse (a DMM's per-atom weights must not leak onto them)
+    for name, cid in chans:
+        if name in after_dmm and rng.random() < 0.9 and not any(
+                o["k"] == "add" and o["ch"] == name and o["det"][0] == "const" and o["det"][1] != 0.0 for o in body):
+            body.insert(rng.randrange(0, len(body) + 1),
+                        {"k": "add", "ch": name, "dur": rng.choice([16, 20]) if grid else rng.randrange(2, 9),
+                         "amp": ["const", rng.choice(AMPS[:5])], "det": ["const", rng.choice([d for d in DETS if d])],
+                         "phase": rng.choice(PHASES), "protocol": rng.choice(["min-delay", "no-delay"])})
     if slm_pending is not None:
         body.insert(rng.randrange(0, len(body) + 1), slm_pending)
     ops += body
@@ -905,6 +927,9 @@ def features(case, info: Rendered | None):
     ks = [o["k"] for o in case["ops"]]
     if "detmap" in ks:
         fs.append("dmm")
+    dmm_pos = [i for i, k in enumerate(ks) if k in ("detmap", "slm")]
+    if dmm_pos and case.get("mode") != "xy" and any(k == "channel" for k in ks[min(dmm_pos) + 1:]):
+        fs.append("channel-declared-after-dmm")
     if "slm" in ks:
         fs.append("slm")
     if "phase_shift" in ks:
